@@ -184,7 +184,7 @@ def_op(loc, "INTERPRETER_EXIT"                 , 22  , 1 , 0)
 def_op(loc, "LOAD_ASSERTION_ERROR"             , 23  , 0 , 1)
 def_op(loc, "LOAD_BUILD_CLASS"                 , 24  , 0 , 1)
 def_op(loc, "LOAD_LOCALS"                      , 25  , 0 , 1)
-def_op(loc, "MAKE_FUNCTION"                    , 26  , -2, 1)
+def_op(loc, "MAKE_FUNCTION"                    , 26  , 1, 1)
 def_op(loc, "MATCH_KEYS"                       , 27  , 0 , 1)
 def_op(loc, "MATCH_MAPPING"                    , 28  , 0 , 1)
 def_op(loc, "MATCH_SEQUENCE"                   , 29  , 0 , 1)
